@@ -257,6 +257,14 @@ func genC10(seed uint64, run int, tier string) Scenario {
 	if r.IntN(2) == 0 {
 		sc.Dev.Banner = banner(r, nl, between(r, 1, 3))
 	}
+	if r.IntN(6) == 0 {
+		// the far end takes 25-50 % of the timeout before it says anything (AAA server, slow
+		// link): the login's one timeout runs from the start of Open, not from the last answer
+		// (the timeout is doubled first, so that the dialogue keeps the time it had)
+		sc.TimeoutOpsUS *= 2
+		slow := Micro(sc.TimeoutOpsUS) * time.Duration(between(r, 25, 50)) / 100
+		sc.Dev.Banner = append([]peer.Tok{{S: "Trying 10.0.0.1 port 22 ..." + nl, Delay: slow}}, sc.Dev.Banner...)
+	}
 	sc.Dev.Modes = modes
 	// reference outcome: the client answers each credential's prompt at most twice
 	seen := map[string]int{}
